@@ -83,7 +83,7 @@ impl Cfg {
 }
 
 pub trait System: Sized {
-    type Op: Copy + Debug + PartialEq + Send + Sync;
+    type Op: Copy + Debug + PartialEq + Send + Sync + 'static;
     /// fresh REAL primitive, empty slots, empty monitors
     fn new(cfg: &Cfg) -> Self;
     /// the menu of operations in the current harness state
@@ -95,6 +95,40 @@ pub trait System: Sized {
     /// graph-level checks evaluated on a replayed copy of each state (drain /
     /// liveness closure, teardown). Consumes the state.
     fn finish(self, out: &mut StepOut);
+}
+
+/// what every worker is executing right now (for the hang watchdog): start
+/// time, index of the history in the current frontier, the operation
+pub struct Progress {
+    pub slots: Vec<Mutex<Option<(Instant, usize, Option<String>)>>>,
+    /// formats the history with the given frontier index (valid while a level is running)
+    pub formatter: Mutex<Option<Box<dyn Fn(usize) -> Vec<String> + Send>>>,
+    pub cfg: Mutex<Option<Cfg>>,
+}
+
+pub static PROGRESS: std::sync::OnceLock<Progress> = std::sync::OnceLock::new();
+/// valgrind / Miri mode: every transition is appended to this file before it is executed
+pub static TRACE_FILE: std::sync::OnceLock<Mutex<std::fs::File>> = std::sync::OnceLock::new();
+
+pub fn progress() -> &'static Progress {
+    PROGRESS.get_or_init(|| Progress { slots: (0..64).map(|_| Mutex::new(None)).collect(), formatter: Mutex::new(None), cfg: Mutex::new(None) })
+}
+
+struct SendPtr<T>(*const T);
+unsafe impl<T> Send for SendPtr<T> {}
+
+fn note_start<Op: Debug>(worker: usize, i: usize, h: &[Op], op: Option<&Op>, cfg: &Cfg) {
+    if let Some(f) = TRACE_FILE.get() {
+        use std::io::Write;
+        let mut f = f.lock().unwrap();
+        let hist: Vec<String> = h.iter().chain(op.into_iter()).map(|o| format!("{:?}", o)).collect();
+        let _ = writeln!(f, "{}", json!({"config": cfg.to_json(), "history": hist}));
+        let _ = f.flush();
+    }
+    *progress().slots[worker % 64].lock().unwrap() = Some((Instant::now(), i, op.map(|o| format!("{:?}", o))));
+}
+fn note_end(worker: usize) {
+    *progress().slots[worker % 64].lock().unwrap() = None;
 }
 
 #[derive(Clone)]
@@ -233,10 +267,22 @@ pub fn explore<S: System>(cfg: &Cfg, opts: &Opts) -> RunResult {
         let idx = AtomicUsize::new(0);
         let outs: Mutex<Vec<WorkerOut<S::Op>>> = Mutex::new(vec![]);
         let fr = &frontier;
+        {
+            let frp = SendPtr(fr as *const Vec<Vec<S::Op>>);
+            *progress().formatter.lock().unwrap() = Some(Box::new(move |i| {
+                let frp = &frp;
+                let v: &Vec<Vec<S::Op>> = unsafe { &*frp.0 };
+                v.get(i).map(|h| h.iter().map(|o| format!("{:?}", o)).collect()).unwrap_or_default()
+            }));
+            *progress().cfg.lock().unwrap() = Some(cfg.clone());
+        }
         let nthreads = opts.threads.max(1).min(fr.len().max(1));
         std::thread::scope(|sc| {
-            for _ in 0..nthreads {
-                sc.spawn(|| {
+            for wid in 0..nthreads {
+                let idx = &idx;
+                let outs = &outs;
+                let in_scope = &in_scope;
+                sc.spawn(move || {
                     let mut w = WorkerOut { next: vec![], viol: vec![], transitions: 0, finish_runs: 0, outcomes: HashSet::new(), truncated: 0 };
                     let mut local: HashSet<Vec<u8>> = HashSet::new();
                     loop {
@@ -248,6 +294,7 @@ pub fn explore<S: System>(cfg: &Cfg, opts: &Opts) -> RunResult {
                             break;
                         }
                         let h = &fr[i];
+                        note_start(wid, i, h, None, cfg);
                         let base = build::<S>(cfg, h);
                         let ops = base.enabled();
                         if opts.finish {
@@ -263,6 +310,7 @@ pub fn explore<S: System>(cfg: &Cfg, opts: &Opts) -> RunResult {
                             drop(base);
                         }
                         for op in ops {
+                            note_start(wid, i, h, Some(&op), cfg);
                             let mut s = build::<S>(cfg, h);
                             let mut out = StepOut::default();
                             s.apply(op, &mut out);
@@ -295,10 +343,12 @@ pub fn explore<S: System>(cfg: &Cfg, opts: &Opts) -> RunResult {
                             }
                         }
                     }
+                    note_end(wid);
                     outs.lock().unwrap().push(w);
                 });
             }
         });
+        *progress().formatter.lock().unwrap() = None;
         let mut next: Vec<Vec<S::Op>> = vec![];
         let mut outs = outs.into_inner().unwrap();
         // merge order: sort candidate successors by fingerprint
